@@ -5,6 +5,7 @@
 -/
 import CstModel.Proofs.Walk
 import CstModel.Proofs.ChunksTree
+import CstModel.Proofs.Util
 namespace Cst.C13
 
 open Red
@@ -949,5 +950,42 @@ example :
     ((Red.new g).tokenAtOffset [] 1).1 = .between [0] [3] ∧ ((Red.new g).coveringElement [] (1, 1)).1 = some [0] ∧
     ((Red.new g).tokenAtOffset [] 3).1 = .panic := by
   decide +kernel
+
+/-! ### the answer as an iterator (`utility_types.rs`)
+
+`TokenAtOffset` is handed out as an `ExactSizeIterator`.  Whatever way a caller consumes it — `next`, `nth`, `last`,
+`count`, the biased accessors, `map` — it sees the tokens of `tao_complete`, in order, with exact size reports. -/
+
+/-- the tokens an answer stands for, as `Model/Util`'s iterator -/
+def asIter : TAO → Util.TAO Path
+  | .none | .panic => .none
+  | .single x => .single x
+  | .between x y => .between x y
+
+theorem asIter_toList (t : TAO) : (asIter t).toList = resPaths t := by
+  cases t <;> rfl
+
+/-- **consuming the answer**: stepping, skipping, `last`, `count`, the size report and both biased accessors are
+    the list operations on the tokens the answer stands for -/
+theorem tao_iter (t : TAO) (k : Nat) :
+    (asIter t).drain (k + 2) = resPaths t ∧
+    ((asIter t).nth k).1 = (resPaths t)[k]? ∧ ((asIter t).nth k).2.toList = (resPaths t).drop (k + 1) ∧
+    (asIter t).last = (resPaths t).getLast? ∧ (asIter t).count = (resPaths t).length ∧
+    (asIter t).sizeHint = ((resPaths t).length, some (resPaths t).length) ∧
+    (asIter t).leftBiased = (resPaths t).head? ∧ (asIter t).rightBiased = (resPaths t).getLast? := by
+  rw [← asIter_toList]
+  exact ⟨Util.TAO.drain_spec _ _ (by omega), (Util.TAO.nth_spec _ k).1, (Util.TAO.nth_spec _ k).2,
+    (Util.TAO.last_count_spec _).1, (Util.TAO.last_count_spec _).2, Util.TAO.sizeHint_exact _,
+    (Util.TAO.biased_spec _).1, (Util.TAO.biased_spec _).2⟩
+
+/-- after a step the rest is still exactly described (`next` = head, remaining iterator = tail) -/
+theorem tao_iter_next (t : TAO) :
+    (asIter t).next.1 = (resPaths t).head? ∧ (asIter t).next.2.toList = (resPaths t).tail := by
+  rw [← asIter_toList]; exact Util.TAO.next_spec _
+
+theorem tao_iter_map {β : Type} (f : Path → β) (t : TAO) : ((asIter t).map f).toList = (resPaths t).map f := by
+  rw [← asIter_toList]; exact Util.TAO.map_toList f _
+
+example : (asIter (.between [0] [3])).nth 0 = (some [0], .single [3]) ∧ ((asIter (.between [0] [3])).nth 1).1 = some [3] := by decide
 
 end Cst.C13
